@@ -145,7 +145,8 @@ CHECKS = {
              "(thorough) from two bases, states deduplicated on full session, circuit, tracker and address-map state. Plus exhaustive sweeps: every garbage/valid "
              "interleaving in two deep base states, the SOCKS framing law over addresses x ports x payload lengths, and every template x value row in both "
              "directions through one open circuit, with independently parsed SOCKS and LLUDP headers; plus repeated-garbage "
-             "histories for every garbage kind (each banned name) and flood scenarios up to 300 distinct far addresses / source hosts / truncated datagrams before "
+             "histories for every garbage kind (each banned name), socket-level faults (protocol.error_received with 4 errnos; EMSGSIZE from a real oversize "
+             "inbound datagram) interleaved with valid traffic, and flood scenarios up to 300 distinct far addresses / source hosts / truncated datagrams before "
              "valid traffic.",
         note="One message shape per event class in the BFS (all 481 templates only in the single-circuit sweep); exceptions escaping datagram_received are swallowed as "
              "asyncio's datagram transport does; the ban list is an inbound rule; an ACK flag with an empty ack list compares equal to no ACK flag; dead circuits carry no judged traffic (only the kill and re-open datagrams are asserted); "
